@@ -57,7 +57,13 @@ func cRuleText(r cRule, withSal bool) string {
 	if withSal {
 		s += fmt.Sprintf(" salience %d", r.Sal)
 	}
-	return s + fmt.Sprintf("\nbegin\n rec(\"%s\")\n return %d\nend\n", r.Name, r.Ver)
+	if (r.Sal+r.Ver)&1 == 0 {
+		return s + fmt.Sprintf("\nbegin\n rec(\"%s\")\n return %d\nend\n", r.Name, r.Ver)
+	}
+	// a body with every kind of statement (no effect beyond rec and the return value): a damaged
+	// text then has its error in front of, inside or behind each of them
+	return s + fmt.Sprintf("\nbegin\n rec(\"%s\")\n x = 1 + 2 * 3\n if x > 100 {\n y = \"s\"\n } else if x < 0 {\n y = \"t\"\n } else {\n y = @name\n }\n"+
+		" for i = 0 ; i < 3 ; i += 1 {\n if i == 0 {\n continue\n }\n if ! ( i < 2 ) {\n break\n }\n x -= 1\n }\n conc {\n z = 1\n w = x\n }\n return %d\nend\n", r.Name, r.Ver)
 }
 
 func genRules(r *rng, n int, ver int64) []cRule {
